@@ -211,7 +211,10 @@ def evaluate(env, st, again=False):
             if kind != "batch":
                 legacy_saved = ("fetch", s.default_fetch_size)
                 s.default_fetch_size = 44
-    fut = s._create_response_future(query, None, False, None, timeout, execution_profile=ep)
+    # the second execution is "a later page": it carries a paging state, which sits between the page size and the
+    # serial consistency level in the encoded request - the options must still read back as resolved
+    paging = b"\x07\x08\x09" if (again and kind != "batch") else None
+    fut = s._create_response_future(query, None, False, None, timeout, execution_profile=ep, paging_state=paging)
     if legacy_saved is not None:
         if legacy_saved[0] == "fetch":
             s.default_fetch_size = legacy_saved[1]
@@ -234,6 +237,7 @@ def evaluate(env, st, again=False):
         if kind != "batch":
             obs["fetch"] = msg.fetch_size
             obs["fetch_wire"] = enc.get("page_size")
+            obs["paging_wire"] = enc.get("paging_state")
         if mode != "legacy":
             plan = fut._spec_execution_plan
             obs["spec"] = getattr(plan, "delay", type(plan).__name__)
@@ -250,6 +254,7 @@ def evaluate(env, st, again=False):
     exp["lbp"] = "level" if winner["lbp"] == "level" else "TokenAwarePolicy"
     if kind != "batch":
         exp["fetch"] = exp["fetch_wire"] = env.value("fetch", winner["fetch"], winner["fetch"])
+        exp["paging_wire"] = b"\x07\x08\x09" if again else None
     if mode != "legacy":
         exp["spec"] = 0.125 if winner["spec"] == "level" else "NoSpeculativeExecutionPlan"
     if again:
